@@ -350,12 +350,20 @@ def plan_campaign(ctx, props, n_quick=150, n_thorough=3000):
     found = []
     for _ in range(ctx.n(40, 600)):
         multi_run_case(ctx, uberjob, ctx.rng, found)
-    for _ in range(ctx.n(n_quick, n_thorough)):
-        try:
-            run_plan_case(ctx, uberjob, ctx.rng, props, found)
-        except Hang:
-            ctx.broke("plan-level campaign aborted: uberjob.run hung", found[-1][2])
-            break
+    import sys
+    old_si = sys.getswitchinterval()
+    try:
+        for k_ in range(ctx.n(n_quick, n_thorough)):
+            # every other case runs with a 1 us interpreter switch interval: the engine's real threads are preempted between almost any
+            # two bytecodes, which exposes check-then-act windows that the default 5 ms interval hides
+            sys.setswitchinterval(1e-6 if k_ % 2 else old_si)
+            try:
+                run_plan_case(ctx, uberjob, ctx.rng, props, found)
+            except Hang:
+                ctx.broke("plan-level campaign aborted: uberjob.run hung", found[-1][2])
+                break
+    finally:
+        sys.setswitchinterval(old_si)
     for prop, key, what, replay in found:
         if prop in props:
             ctx.fail(key, what, replay)
